@@ -30,8 +30,12 @@ Fixpoint judge_steps (sc : scenario) (ents : list (Z * Z * Z)) (hist : list (opt
                                           oq_eqb (e_fired ev) (if carries_fired (e_kind ev) then Some (sn_fired s) else None)) evs) ],
                  Some (sn_state s, rp'))
             | _, _ =>
-                (* an op step, or the first sight of the instance: a (re)built instance starts at rest *)
-                ([], if state_eqb (sn_state s) SNone && qeqb (sn_elapsed s) 0 then Some (SNone, []) else
+                (* an op step, or the first sight of the instance: a (re)built instance starts at rest; an entity that gets
+                   the context when nobody else holds it gets a new instance (durations zero, state None) *)
+                let others := existsb (fun m => match m with mi c' e' got _ => Z.eqb c c' && negb (Z.eqb e e') && got end) (x_mirror before) in
+                let at_rest := state_eqb (sn_state s) SNone && qeqb (sn_elapsed s) 0 && qeqb (sn_fired s) 0 in
+                ((match h, st with None, SOp _ => [(31, at_rest || (ctx_shared c && others))] | _, _ => [] end),
+                 if state_eqb (sn_state s) SNone && qeqb (sn_elapsed s) 0 then Some (SNone, []) else
                        match h with Some hh => Some hh | None => None end)
             end
         end) (combine ents hist) in
